@@ -210,7 +210,8 @@ Section Engine.
         bind (recp p c stk lrc pos) (fun '(res, cp, err, c') =>
           match err with
           | Some e => let ep := fst (skip_ws inp (epos e) m) in
-                      Ok (res, cp, Some (if epos e <? ep then mk_err ep (ecause e) else e), c')
+                      (* a whitespace error already points at the offending whitespace: only other errors are moved over it *)
+                      Ok (res, cp, Some (if is_wserr e then e else if epos e <? ep then mk_err ep (ecause e) else e), c')
           | None =>
             let '(res', wserr) := trim_nodes m res None in
             match wserr with
